@@ -47,6 +47,9 @@ CLAIMS = {
  'C13': ("construct / constructSkip model every CallbackRetVal / SkipRetVal impl row by row; lex_eq_spec holds for every callback table, so skips, custom errors and emitted variants are those of the reference lexer; zoo definitions carry callbacks of every supported return type, an error callback and bumping callbacks.",
          "callback bodies are executed, not modelled (same pure decision on both sides).",
          "Lean theorem (for all callback tables) + correspondence with every return type"),
+ 'C14': ("Pool-of-lexers model of the public API (next, spanned next, bump, clone, morph); api_in_range: for two well-formed graphs over one source and any finite call sequence every lexer keeps start <= end <= len, so slice()/remainder() are total; clone_independent, morph_preserves, morph_twice, spanned_eq_manual; random histories run on the real Lexer (4 builds; span/slice/remainder/extras checked after every call) and on the model over the captured graphs of the same two token types.",
+         "api_in_range is proved for ordinary lexers (partial lexers: correspondence only); extras are a constant carried along.",
+         "Lean invariant over all call sequences + random-history correspondence in 4 builds"),
  'C15': ("bumpFixed_ok_iff, bumpFixed_preserves, after_any_bumps_safe: the repaired rule (checked_add, assert, then assign) succeeds exactly when the new end is representable, in range and on a boundary, and every sequence of bumps, successful or panicking, leaves a span for which slice()/remainder() are defined; bumpFound_* prove that the code as found violated this (kept as regression witnesses); real Lexer::bump exercised at boundary values in debug/release x default/forbid_unsafe under catch_unwind.",
          "the model treats usize as 64-bit; 32-bit targets are not exercised.",
          "Lean theorems on the bump rule + boundary-value correspondence in 4 builds"),
